@@ -340,6 +340,7 @@ class REPL(code.InteractiveConsole):
         try:
             eval(code[0], self.locals)
             self.last_value = eval(code[1], self.locals)
+            self.have_new_value = True
             # Don't print `None` values.
             self.print_last_value = self.last_value is not None
         except SystemExit:
@@ -350,6 +351,9 @@ class REPL(code.InteractiveConsole):
             self.showtraceback()
 
     def runsource(self, source, filename="<stdin>", symbol="exec"):
+        # Set by `runcode` when the input is evaluated without an
+        # uncaught exception.
+        self.have_new_value = False
         try:
             res = super().runsource(source, filename, symbol)
         except (HyMacroExpansionError, HyRequireError):
@@ -363,8 +367,9 @@ class REPL(code.InteractiveConsole):
             self.showtraceback()
             return False
 
-        # Shift exisitng REPL results
-        if not res:
+        # Shift exisitng REPL results. An input that failed has no
+        # result, so it leaves `*1`, `*2`, and `*3` alone.
+        if not res and self.have_new_value:
             next_result = self.last_value
             for sym in self._repl_results_symbols:
                 self.locals[sym], next_result = next_result, self.locals[sym]
